@@ -418,6 +418,12 @@ func genC19(out *caseWriter, seed uint64, n int, args []string) error {
 			}
 			c = c19Case{sched: 1 + r.intn(1000000), kind: kind, ndir: len(dirs), ndays: nacc + 4, cmd: "balance"}
 			c.args = []string{"--from", "2018-01-01", "--to", "2025-12-31", "--color=false", "-v", "CHF", "--remap", pick(r, []string{"Expenses", "Depot", "Food"})}
+			if r.chance(45) {
+				// ... or shortens them with a suffix rule (-m level:suffix,regex) while the valuation stage, some days ahead,
+				// derives valuation accounts from the same account objects (seeded change C19g-shorten-slices-delete-in-place
+				// shifted the segments of the shared account in place)
+				c.args = append(c.args[:len(c.args)-2], "-m", pick(r, []string{"1:1,^Assets", "1:1,Depot", "1:1,."}))
+			}
 			if r.chance(40) {
 				c.args = append(c.args, pick(r, []string{"--days", "--weeks", "--months"}))
 			}
